@@ -139,14 +139,18 @@ func (b *BinaryExpression) SQL() string {
 	if b == nil {
 		return ""
 	}
-	left := exprSQL(b.Left)
-	right := exprSQL(b.Right)
 	op := b.Operator
 	if b.CustomOp != nil {
 		op = b.CustomOp.String()
 	}
 
 	upperOp := strings.ToUpper(op)
+
+	// Operands are parenthesised when they bind looser than this operator does on that side,
+	// so that re-parsing the text gives the same tree.
+	_, leftCtx, rightCtx := binaryOperatorPrec(upperOp)
+	left := operandSQL(b.Left, leftCtx)
+	right := operandSQL(b.Right, rightCtx)
 
 	// Handle IS NULL / IS NOT NULL (right side is NULL literal)
 	if upperOp == "IS NULL" || upperOp == "IS NOT NULL" {
@@ -170,10 +174,11 @@ func (u *UnaryExpression) SQL() string {
 	if u == nil {
 		return ""
 	}
-	inner := exprSQL(u.Expr)
+	if u.Operator == Not {
+		return "NOT " + operandSQL(u.Expr, precNot)
+	}
+	inner := operandSQL(u.Expr, precPostfix)
 	switch u.Operator {
-	case Not:
-		return "NOT " + inner
 	case PGPostfixFactorial:
 		return inner + "!"
 	case Plus:
@@ -239,7 +244,7 @@ func (b *BetweenExpression) SQL() string {
 	if b.Not {
 		not = "NOT "
 	}
-	return fmt.Sprintf("%s %sBETWEEN %s AND %s", exprSQL(b.Expr), not, exprSQL(b.Lower), exprSQL(b.Upper))
+	return fmt.Sprintf("%s %sBETWEEN %s AND %s", operandSQL(b.Expr, precConcat), not, operandSQL(b.Lower, precConcat), operandSQL(b.Upper, precConcat))
 }
 
 func (i *InExpression) SQL() string {
@@ -251,13 +256,13 @@ func (i *InExpression) SQL() string {
 		not = "NOT "
 	}
 	if i.Subquery != nil {
-		return fmt.Sprintf("%s %sIN (%s)", exprSQL(i.Expr), not, stmtSQL(i.Subquery))
+		return fmt.Sprintf("%s %sIN (%s)", operandSQL(i.Expr, precConcat), not, stmtSQL(i.Subquery))
 	}
 	vals := make([]string, len(i.List))
 	for idx, v := range i.List {
 		vals[idx] = exprSQL(v)
 	}
-	return fmt.Sprintf("%s %sIN (%s)", exprSQL(i.Expr), not, strings.Join(vals, ", "))
+	return fmt.Sprintf("%s %sIN (%s)", operandSQL(i.Expr, precConcat), not, strings.Join(vals, ", "))
 }
 
 func (e *ExistsExpression) SQL() string {
@@ -278,14 +283,14 @@ func (a *AnyExpression) SQL() string {
 	if a == nil {
 		return ""
 	}
-	return fmt.Sprintf("%s %s ANY (%s)", exprSQL(a.Expr), a.Operator, stmtSQL(a.Subquery))
+	return fmt.Sprintf("%s %s ANY (%s)", operandSQL(a.Expr, precConcat), a.Operator, stmtSQL(a.Subquery))
 }
 
 func (a *AllExpression) SQL() string {
 	if a == nil {
 		return ""
 	}
-	return fmt.Sprintf("%s %s ALL (%s)", exprSQL(a.Expr), a.Operator, stmtSQL(a.Subquery))
+	return fmt.Sprintf("%s %s ALL (%s)", operandSQL(a.Expr, precConcat), a.Operator, stmtSQL(a.Subquery))
 }
 
 func (f *FunctionCall) SQL() string {
@@ -398,7 +403,7 @@ func (a *ArraySubscriptExpression) SQL() string {
 	if a == nil {
 		return ""
 	}
-	s := exprSQL(a.Array)
+	s := operandSQL(a.Array, precPrimary)
 	for _, idx := range a.Indices {
 		s += "[" + exprSQL(idx) + "]"
 	}
@@ -417,7 +422,7 @@ func (a *ArraySliceExpression) SQL() string {
 	if a.End != nil {
 		end = exprSQL(a.End)
 	}
-	return fmt.Sprintf("%s[%s:%s]", exprSQL(a.Array), start, end)
+	return fmt.Sprintf("%s[%s:%s]", operandSQL(a.Array, precPrimary), start, end)
 }
 
 // GROUP BY advanced expressions
@@ -1130,6 +1135,93 @@ func exprSQL(e Expression) string {
 		return s.SQL()
 	}
 	return e.TokenLiteral()
+}
+
+// Binding strength of expressions in the expression grammar the parser implements
+// (OR < AND < NOT < comparison / IS NULL / IN / BETWEEN / LIKE < || < + - < * / % < unary sign < JSON operators < primary).
+// A node needs no parentheses exactly in a context whose level is not above its own.
+const (
+	precOr = iota
+	precAnd
+	precNot
+	precComparison
+	precConcat
+	precAdditive
+	precMultiplicative
+	precUnary
+	precPostfix
+	precPrimary
+)
+
+// binaryOperatorPrec returns the level of a binary operator (upper-cased) and the contexts of its
+// left and right operand: left-associative operators take their own level on the left and the next
+// tighter one on the right; comparison operators do not associate.
+func binaryOperatorPrec(upperOp string) (level, left, right int) {
+	switch upperOp {
+	case "OR":
+		return precOr, precOr, precAnd
+	case "AND":
+		return precAnd, precAnd, precNot
+	case "||":
+		return precConcat, precConcat, precAdditive
+	case "+", "-":
+		return precAdditive, precAdditive, precMultiplicative
+	case "*", "/", "%":
+		return precMultiplicative, precMultiplicative, precUnary
+	case "->", "->>", "#>", "#>>", "@>", "<@", "?", "?|", "?&", "#-":
+		return precPostfix, precPostfix, precPrimary
+	case "REGEXP", "RLIKE":
+		return precComparison, precConcat, precPrimary
+	default:
+		// = <> != < > <= >= LIKE ILIKE SIMILAR TO IS NULL ~ ~* !~ !~* and anything unknown
+		return precComparison, precConcat, precConcat
+	}
+}
+
+// exprPrec returns the binding strength of the text SQL() produces for e.
+func exprPrec(e Expression) int {
+	switch v := e.(type) {
+	case *BinaryExpression:
+		if v == nil {
+			return precPrimary
+		}
+		op := v.Operator
+		if v.CustomOp != nil {
+			op = v.CustomOp.String()
+		}
+		upperOp := strings.ToUpper(op)
+		if v.Not {
+			switch upperOp {
+			case "LIKE", "ILIKE", "SIMILAR TO", "IS NULL", "IS NOT NULL":
+			default:
+				return precNot // printed as NOT (...)
+			}
+		}
+		level, _, _ := binaryOperatorPrec(upperOp)
+		return level
+	case *UnaryExpression:
+		if v == nil {
+			return precPrimary
+		}
+		if v.Operator == Not {
+			return precNot
+		}
+		return precUnary
+	case *BetweenExpression, *InExpression, *AnyExpression, *AllExpression:
+		return precComparison
+	default:
+		return precPrimary
+	}
+}
+
+// operandSQL renders e as an operand in a context of the given level, adding the parentheses the
+// grammar requires there.
+func operandSQL(e Expression, ctx int) string {
+	s := exprSQL(e)
+	if s != "" && exprPrec(e) < ctx {
+		return "(" + s + ")"
+	}
+	return s
 }
 
 // stmtSQL dispatches to the SQL() method of any statement
